@@ -27,8 +27,7 @@ func LoadUniverse(tarsFiles []string) (*Universe, error) {
 		}
 		u.Files = append(u.Files, idl)
 		for _, e := range idl.Enums {
-			u.enums[e.Name] = true
-			u.enums[e.Module+"::"+e.Name] = true
+			u.enums[strings.ToLower(e.Module)+"::"+e.Name] = true
 		}
 		for _, s := range idl.Structs {
 			u.structs[s.Module+"."+upperFirst(s.Name)] = s
@@ -51,12 +50,12 @@ func (u *Universe) SchemaOf(obj Codec) (*rc.Struct, error) {
 var idlBasic = map[string]string{"bool": "bool", "byte": "int8", "unsigned byte": "uint8", "short": "int16", "unsigned short": "uint16", "int": "int32",
 	"unsigned int": "uint32", "long": "int64", "float": "float", "double": "double", "string": "string"}
 
-func (u *Universe) idlTypeString(t string) string {
+func (u *Universe) idlTypeString(t string, module string) string {
 	if b, ok := idlBasic[t]; ok {
 		return b
 	}
 	if strings.HasPrefix(t, "vector<") {
-		return "vector<" + u.idlTypeString(t[7:len(t)-1]) + ">"
+		return "vector<" + u.idlTypeString(t[7:len(t)-1], module) + ">"
 	}
 	if strings.HasPrefix(t, "map<") {
 		inner := t[4 : len(t)-1]
@@ -69,19 +68,19 @@ func (u *Universe) idlTypeString(t string) string {
 				depth--
 			case ',':
 				if depth == 0 {
-					return "map<" + u.idlTypeString(inner[:i]) + "," + u.idlTypeString(inner[i+1:]) + ">"
+					return "map<" + u.idlTypeString(inner[:i], module) + "," + u.idlTypeString(inner[i+1:], module) + ">"
 				}
 			}
 		}
 	}
-	if u.enums[t] {
-		return "int32"
-	}
 	if i := strings.LastIndex(t, "::"); i >= 0 {
-		if u.enums[t[i+2:]] {
+		if u.enums[strings.ToLower(t[:i])+"::"+t[i+2:]] {
 			return "int32"
 		}
 		return upperFirst(t[i+2:])
+	}
+	if u.enums[module+"::"+t] {
+		return "int32"
 	}
 	return upperFirst(t)
 }
@@ -118,7 +117,7 @@ func (u *Universe) CompareWithIDL(obj Codec, s *rc.Struct) string {
 		if f.Require != m.Require {
 			return fmt.Sprintf("%s.%s: require=%v in the IDL, %v in the Go struct tag", t.Name(), m.Name, m.Require, f.Require)
 		}
-		want := u.idlTypeString(m.Type)
+		want := u.idlTypeString(m.Type, strings.ToLower(idl.Module))
 		if m.ArrLen > 0 {
 			want = fmt.Sprintf("%s[%d]", want, m.ArrLen)
 		}
